@@ -49,8 +49,10 @@ def main():
     outdir = os.path.join(driver.BUILD, 'c17_libs')
     created = catalog.create_all(exe, outdir)
     supported = list(range(18))            # the 18 supported versions (enumerators 0..17); 18 = 3.0.0 is upstream work in progress
+    # 3.0.0 (enumerator 18) is not among the 18 supported versions but the library can create and verify it: covered in the thorough tier when the library creates it
     if TIER == 'quick': todo = [0, 10, 11, 17]
-    else: todo = supported
+    else: todo = supported + ([18] if 18 in created else [])
+    if os.environ.get('VERIF_C17_SCHEMAS'): todo = [int(x) for x in os.environ['VERIF_C17_SCHEMAS'].split(',')]       # development aid
     ck.extra['library_build_s'] = round(time.time() - t0, 1)
     for e in todo:
         if e not in created: ck.machinery.append('schema enumerator %d could not be created natively' % e); continue
@@ -75,7 +77,7 @@ def main():
                           'replacement_values': 'names: same length with the last character symbolic, or one symbolic character appended' + (', or all characters symbolic' if names_mode == 'full' else '') +
                                                 '; types / defaults: every printable string of the same length, of length + 1, and the empty string / NULL; nullability and key flag: both values; extra objects: every 3-character name',
                           'outside': 'more than one deviation at a time; type changes of key columns and key-membership changes that would add or remove an automatic index (compound catalog change); index attributes (uniqueness, partial); '
-                                     'columns of views; triggers; schema 3.0.0; catalogs only a hand-edited sqlite_master could produce'}
+                                     'columns of views; triggers; schema 3.0.0 in the quick tier (thorough: included); catalogs only a hand-edited sqlite_master could produce'}
     ck.assumptions = ['catalog model = the four catalog queries answered from the real SQLite\'s catalog of a natively created library, with one deviation applied consistently (checks/catalog.py)',
                       'deviation-free sqlite3 API otherwise (no statement fails)']
     ck.trusted = ['clang-14 lowering', 'lsx executor + std::set primitives model (lsx/models_rt.py: insert without rebalancing, increment, decrement)', 'lsx/models_sqlite.py', 'checks/catalog.py', 'python sqlite3 / system SQLite for the ground-truth catalog', 'z3']
